@@ -74,6 +74,13 @@ Lemma closed_after_cancel_machine s i x :
   mreach s -> nth_error (subs s) i = Some x -> wclosed x = true -> cancelled x = true.
 Proof. intros [ls H]. exact (closed_only_after_cancel fsm_cfg ls s i x H). Qed.
 
+Lemma close_progress_machine s i x :
+  mreach s -> nth_error (subs s) i = Some x ->
+  cancelled x = true -> sg x = SLive -> gotclosed x = false ->
+  (unsub x = false -> pend s = []) ->
+  exists l, In l (pipeline_labels i) /\ step fsm_cfg s l <> None.
+Proof. intros [ls H]. exact (close_progress fsm_cfg ls s i x H). Qed.
+
 (* the property's own reading: at most one state change between registration and read *)
 Lemma stream_partial s i x :
   mreach s -> nth_error (subs s) i = Some x -> dropped x = false -> sg x = SLive ->
